@@ -38,6 +38,7 @@ import (
 	"os/exec"
 	"path/filepath"
 	"regexp"
+	"runtime"
 	"runtime/debug"
 	"sort"
 	"strings"
@@ -1378,6 +1379,85 @@ func (m *modInfo) concurrentInProcess(round int) {
 	}
 }
 
+// ---- DIFFERENT modules compiled concurrently in one process into one cache directory: every entry must be the
+// deterministic entry of ITS module (anything shared between compilations of one process - a pooled buffer, a
+// scratch slice of the engine - shows only when the writers do NOT write the same bytes).
+func concurrentDifferentModules(r *rand.Rand, rounds int) {
+	const K, G = 48, 12
+	type ref struct {
+		bin   []byte
+		name  string
+		entry []byte
+	}
+	refs := make([]ref, K)
+	vdir := ""
+	for k := range refs {
+		refs[k].bin = bigModule(rand.New(rand.NewSource(r.Int63())), 2+k%5)
+		dir := freshDir(fmt.Sprintf("difref-%d", k))
+		res := runOnce(filepath.Join(dir, "cache"), refs[k].bin, "plain", "compiler", true)
+		if res.CompileErr != "" || res.Panic != "" {
+			hx.Fatal("reference compile of module %d: %v", k, res)
+		}
+		vds, _ := os.ReadDir(filepath.Join(dir, "cache"))
+		if len(vds) != 1 {
+			hx.Fatal("reference cache of module %d has %d version directories", k, len(vds))
+		}
+		vdir = vds[0].Name()
+		es, _ := os.ReadDir(filepath.Join(dir, "cache", vdir))
+		if len(es) != 1 {
+			hx.Fatal("reference cache of module %d has %d entries", k, len(es))
+		}
+		refs[k].name = es[0].Name()
+		refs[k].entry, _ = os.ReadFile(filepath.Join(dir, "cache", vdir, refs[k].name))
+		os.RemoveAll(dir)
+	}
+	prev := runtime.GOMAXPROCS(4) // more compiling goroutines than Ps
+	defer runtime.GOMAXPROCS(prev)
+	bad := 0
+	for round := 0; round < rounds && bad == 0; round++ {
+		dir := freshDir(fmt.Sprintf("difconc-%d", round))
+		cache := filepath.Join(dir, "cache")
+		var wg sync.WaitGroup
+		start := make(chan struct{})
+		for g := 0; g < G; g++ {
+			wg.Add(1)
+			go func(g int) {
+				defer wg.Done()
+				<-start
+				for j := 0; j < K/G; j++ {
+					k := g*(K/G) + j
+					if res := runOnce(cache, refs[k].bin, "plain", "compiler", true); res.CompileErr != "" || res.Panic != "" {
+						violate("impl-violation", "C13:concurrent-writer-failed", "CompileModule failed while other modules were compiled concurrently into the same cache directory", map[string]any{"module_index": k, "round": round}, "no error", res)
+					}
+				}
+			}(g)
+		}
+		close(start)
+		wg.Wait()
+		rep.Case(fmt.Sprintf("concurrent-different-modules:round=%d", round))
+		for k := range refs {
+			got, err := os.ReadFile(filepath.Join(cache, vdir, refs[k].name))
+			if err != nil || !bytes.Equal(got, refs[k].entry) {
+				bad++
+				whose := "a mixture"
+				for j := range refs {
+					if j != k && len(got) >= len(refs[j].entry) && bytes.Equal(got[:len(refs[j].entry)], refs[j].entry) {
+						whose = fmt.Sprintf("the complete entry of module %d followed by %d more bytes", j, len(got)-len(refs[j].entry))
+					}
+				}
+				violate("impl-violation", "C13:entry-not-deterministic-under-concurrent-compiles-of-other-modules",
+					fmt.Sprintf("module %d of %d compiled concurrently (12 goroutines on 4 Ps, one cache directory): its entry differs from the one a sequential compile writes (%v): %s", k, K, err, whose),
+					map[string]any{"round": round, "module_index": k, "module_hex": trunc(hex.EncodeToString(refs[k].bin))}, fmt.Sprintf("%d bytes", len(refs[k].entry)), fmt.Sprintf("%d bytes", len(got)))
+				if bad >= 3 {
+					break
+				}
+			}
+		}
+		os.RemoveAll(dir)
+	}
+	rep.Count(fmt.Sprintf("concurrent-different-modules:rounds=%d", rounds))
+}
+
 // ---- concurrent writers
 func (m *modInfo) concurrent(round int, r *rand.Rand) {
 	dir := freshDir("conc-" + m.Name)
@@ -1676,6 +1756,11 @@ func main() {
 			m.concurrent(i, r)
 			m.concurrentInProcess(i)
 		}
+	}
+	if hx.Thorough() {
+		concurrentDifferentModules(r, 60)
+	} else {
+		concurrentDifferentModules(r, 8)
 	}
 	if readerVariant["repaired"] > 0 && readerVariant["as-is"] > 0 {
 		violate("correspondence", "C13:reader-variant-mixed", fmt.Sprintf("the real reader matches the as-is model on %d and the repaired model on %d of the planted entries that distinguish them", readerVariant["as-is"], readerVariant["repaired"]), nil, nil, nil)
